@@ -54,13 +54,24 @@ def run_rules(prop: str, proj: Project, tier: str, seed: int) -> Result:
 def run_property(prop: str, tier: str, seed: int, overlay=None, quiet=False) -> int:
     t0 = time.time()
     res = Result(prop)
+    Result.registry.clear()
+    analysis_error = None
     try:
         proj = Project(overlay=overlay)
         res = run_rules(prop, proj, tier, seed)
     except AnalysisError as exc:
-        print(f"ANALYSIS-ERROR property={prop} {exc}")
-        write_evidence(res, tier, seed, time.time() - t0, [], [], error=str(exc))
-        return 2
+        partial = None
+        for r in Result.registry:
+            if r.prop == prop and r.violations and (partial is None or len(r.obligations) > len(partial.obligations)):
+                partial = r
+        if partial is None:
+            print(f"ANALYSIS-ERROR property={prop} {exc}")
+            write_evidence(res, tier, seed, time.time() - t0, [], [], error=str(exc))
+            return 2
+        # violations already established by earlier rules stand; the construct that could not be analysed is noted
+        analysis_error = str(exc)
+        res = partial
+        print(f"note: a later rule could not be evaluated ({exc}); reporting the violations found before it")
     except BrokenPipeError:
         raise
     except Exception as exc:  # internal error: never a violation
@@ -87,7 +98,7 @@ def run_property(prop: str, tier: str, seed: int, overlay=None, quiet=False) -> 
         except Exception as exc:  # self-validation is informational; it never changes the verdict
             selftest = {"error": repr(exc)}
 
-    write_evidence(res, tier, seed, time.time() - t0, new, hits, selftest)
+    write_evidence(res, tier, seed, time.time() - t0, new, hits, selftest, error=analysis_error)
     if not quiet:
         n_ok = sum(1 for o in res.obligations if o.status == "ok")
         print(f"property={prop} tier={tier} obligations={len(res.obligations)} discharged={n_ok} "
